@@ -207,7 +207,7 @@ def compare(cdoc, M, label_of, thr, cfg, twin=None, decimals=-1, expect_empty_sh
                 if M.mixed_kind_signature(S, k[0], thr):
                     sig = "C02-MIXEDKIND"
                 else:
-                    sig = _goneref_sig(M, S, k[0], thr, cdoc, label_of)
+                    sig = _goneref_sig(M, S, k[0], thr, cdoc, label_of, cfg.get("keep_less_specific", True))
             out.append(Finding("KEY_MISSING", "%s %s" % (lab, k), sig))
         for k in keys - exp:
             out.append(Finding("KEY_EXTRA", "%s %s" % (lab, k)))
@@ -221,7 +221,7 @@ def compare(cdoc, M, label_of, thr, cfg, twin=None, decimals=-1, expect_empty_sh
             for k in exp:
                 if k[1] == ("nonliteral",) and M.mixed_kind_signature(S, k[0], thr):
                     sigs.append("C02-MIXEDKIND")
-                elif k[1] == ("nonliteral",) and _goneref_sig(M, S, k[0], thr, cdoc, label_of):
+                elif k[1] == ("nonliteral",) and _goneref_sig(M, S, k[0], thr, cdoc, label_of, cfg.get("keep_less_specific", True)):
                     sigs.append("C02-GONEREF")
                 else:
                     sigs.append(None)
@@ -232,14 +232,31 @@ def compare(cdoc, M, label_of, thr, cfg, twin=None, decimals=-1, expect_empty_sh
     return out
 
 
-def _goneref_sig(M, S, dp, thr, cdoc, label_of):
-    """C02-GONEREF: the winning alternative is a reference to a shape that is not in the document."""
+def _goneref_sig(M, S, dp, thr, cdoc, label_of, kls=True):
+    """C02-GONEREF: the WINNING alternative is a reference to a shape that is not in the document.  A reference wins over the node
+    kind it specialises only when it is as frequent as that kind (every instance with such a value has one of that shape) - with
+    keep_less_specific=False the most frequent exact cardinalities are compared instead.  A reference that merely reaches the
+    threshold, but is less frequent than the plain node kind, does not win, and a constraint missing then is not this finding."""
     N = M.N[S]
     if not N:
         return None
-    for k, n in M.plus[S][dp].items():
-        if k[0] == "ref" and n / N >= thr and k[1] not in cdoc:
-            return "C02-GONEREF"
+    plus, hist = M.plus[S][dp], M.hist[S][dp]
+    for k, n in plus.items():
+        if k[0] != "ref" or n / N < thr or k[1] in cdoc:
+            continue
+        for kind in (("kind", "IRI"), ("kind", "BNode")):
+            if kind not in plus:
+                continue
+            if kls and n >= plus[kind]:
+                return "C02-GONEREF"
+            if not kls:
+                # the statement that stands for an alternative is its most frequent exact cardinality among those that reach the
+                # threshold, or the '+' statement when none does
+                def chosen(kk):
+                    ex = [c for c in hist[kk].values() if c / N >= thr]
+                    return max(ex) if ex else (plus[kk] if plus[kk] / N >= thr else 0)
+                if chosen(k) and chosen(k) >= chosen(kind):
+                    return "C02-GONEREF"
     return None
 
 
